@@ -406,6 +406,10 @@ func (d *Driver) StepCrashPull(r *RPC) *Event {
 	d.lastRPC = r
 	d.nFaults++
 	d.prePull = nil
+	if bi := d.blobIdx(r.Blob); bi >= 0 {
+		st := d.Cl.D.Tract(d.tractID(bi, r.Tract))
+		d.prePull = &st
+	}
 	d.Cl.TS[r.TS].ArmCrash(core.TractID{Blob: core.BlobID(r.Blob), Index: core.TractKey(r.Tract)})
 	d.Cl.S.Start(r, ModeLoseReply)
 	d.Cl.RestartTS(r.TS)
@@ -576,6 +580,7 @@ func (d *Driver) after(ev *Event) *Event {
 						Detail: map[string]interface{}{"ts": i, "tract": id.String()}})
 				}
 			}
+			d.checkRepull(d.lastRPC, before, after) // the pull that crashed may have been a same-version re-pull of a committed host (F21)
 		} else if ev.Code == EvStep && d.lastRPC != nil && d.lastRPC.TS == i {
 			for _, b := range CheckFrame(d.lastRPC, before, after, d.Snap) {
 				d.report(b)
